@@ -17,7 +17,18 @@ rsync -a --exclude .git --exclude '*_test.go' --exclude examples --exclude tests
 if [ ! -x "$S/instr" ]; then
   (cd "$VERIF/instr" && $GO build -o "$S/instr" .) || fail "instrumenter does not build"
 fi
-"$S/instr" "$S/repo" > "$S/instr.log" || fail "instrumenter failed: $(cat "$S/instr.log")"
+instrument() {
+  rm -rf "$S/repo"; mkdir -p "$S/repo"
+  rsync -a --exclude .git --exclude '*_test.go' --exclude examples --exclude tests "$REPO"/ "$S/repo"/ || fail "copy of $REPO failed"
+  "$S/instr" "$S/repo" > "$S/instr.log" 2>&1 || fail "instrumenter failed: $(cat "$S/instr.log")"
+}
+instrument
+# the cooperative-lock rewrite assumes sync.Mutex-like types (TryLock); if the copy does not compile with
+# it (a custom locker), fall back to plain statement instrumentation
+if ! (cd "$S/repo" && $GO build ./... > "$S/build0.log" 2>&1); then
+  INSTR_NOLOCKS=1 instrument
+  (cd "$S/repo" && $GO build ./... > "$S/build0.log" 2>&1) || fail "instrumented copy does not compile: $(tail -20 "$S/build0.log")"
+fi
 cp "$VERIF"/sim/*.go "$S/sim"/ || fail "copy sim"
 cat > "$S/sim/go.mod" <<EOF
 module verif/sim
